@@ -38,6 +38,11 @@ func genC20(r *rand.Rand, t *Trace, thorough bool) {
 		if thorough && it%40 == 0 {
 			n = 100 + r.Intn(400)
 		}
+		bigK := it%20 == 19 // more than 256 centroids asked of more than 256 vectors (k and n beyond one byte)
+		if bigK {
+			dim = 1 + r.Intn(2)
+			n = 257 + r.Intn(244)
+		}
 		style := r.Intn(3)
 		vs := make([][]float32, n)
 		mode := r.Intn(5)
@@ -67,15 +72,22 @@ func genC20(r *rand.Rand, t *Trace, thorough bool) {
 		if n > 60 && k > 16 {
 			k = 2 + r.Intn(15)
 		}
+		if bigK {
+			k = []int{257, 300, n - 1, n, n + 5}[r.Intn(5)]
+			t.Stat("kmeans.more_than_256_centroids")
+		}
 		mz := r.Intn(3)
 		d, _ := comet.NewDistance(metrics[mz])
 		maxIter := []int{-1, 0, 1, 2, 5, 20, 50}[r.Intn(7)]
+		if bigK {
+			maxIter = 1 + r.Intn(2)
+		}
 		orig := make([][]float32, n)
 		for i := range vs {
 			orig[i] = cloneVec(vs[i])
 		}
 		// KMeansSubspace (the codebook trainer of PQ / IVFPQ) is k-means under squared Euclidean distance
-		sub := r.Intn(4) == 0
+		sub := r.Intn(4) == 0 || (bigK && r.Intn(3) != 0)
 		if sub {
 			mz = 1
 			t.Stat("kmeans.subspace_entry_point")
